@@ -3,5 +3,6 @@ CONSTANTS
   Values = {1, 2, 3, 4}
   Gaps = {2}
   MaxLen = 6
-INVARIANTS TypeOK RunIsRef PeakToTrough Recovery OnePerPeak NoneIffMonotone MaxIsLargest ClassicMDD
+INVARIANTS TypeOK RunIsRef ReadIsCurrent PeakToTrough Recovery OnePerPeak NoneIffMonotone MaxIsLargest ClassicMDD
+PROPERTIES ReadingIsPure
 CHECK_DEADLOCK FALSE
